@@ -145,19 +145,52 @@ pub fn run(cx: &RunCtx) -> i32 {
     acc.merge(racc);
     acc.count("random_grammars", n_rand as u64);
 
+    // the slicing / span arithmetic under Miri (out-of-bounds or mid-character slicing of the input is UB or a
+    // panic there) and, in the thorough tier, ASan
+    crate::san::miri_job(&mut acc, cx, "C07", "c07", cx.t(10, 30), cx.t(2, 8));
+    if cx.thorough() {
+        crate::san::asan_job(&mut acc, cx, "C07", "c07", 3000, 8, false);
+    }
+
     finish(
         cx,
         acc,
         Finish {
-            rule: format!("every grammar with <= {size} nodes over the C01/C02 class (with probes and validate emitters), every node wrapped in map_with capturing span and slice, x every input <= {max_len} over {{a,b,é}} on &str (byte offsets) and on a mapped (token, span) slice with gapped spans (token i = 10i+2..10i+7, end of input 10n..10n); every 3rd input on &[char] and Stream::map (gapped), every 5th on Stream; the same over the Input-only leaf basis on IterInput (gapped); {n_rand} random grammars of {}..13 nodes x 5 multi-byte inputs. Compared with the reference evaluation: every node's span (incl. empty matches: empty span between the neighbouring tokens), slice text = input[span], slice address = caller's buffer + offset, to_span/to_slice nodes, foldl_with/foldr_with callback spans, spans handed to validate and try_map closures, spans of zero-width probes. Non-trivial: accepted input with >= 1 token consumed", size + 1),
+            rule: format!("every grammar with <= {size} nodes over the C01/C02 class (with probes and validate emitters), every node wrapped in map_with capturing span and slice, x every input <= {max_len} over {{a,b,é}} on &str (byte offsets) and on a mapped (token, span) slice with gapped spans (token i = 10i+2..10i+7, end of input 10n..10n); every 3rd input on &[char] and Stream::map (gapped), every 5th on Stream; the same over the Input-only leaf basis on IterInput (gapped); {n_rand} random grammars of {}..13 nodes x 5 multi-byte inputs. Compared with the reference evaluation: every node's span (incl. empty matches: empty span between the neighbouring tokens), slice text = input[span], slice address = caller's buffer + offset, to_span/to_slice nodes, foldl_with/foldr_with callback spans, spans handed to validate and try_map closures, spans of zero-width probes. A slice of the random part also runs under Miri (thorough: ASan). Non-trivial: accepted input with >= 1 token consumed", size + 1),
             exhaustive: false,
             exhaustive_note: format!("grammars <= {size} nodes x inputs <= {max_len}: complete on &str and the mapped slice"),
             assumptions: vec![
                 "an empty match on a gapped-span input may report any empty span between the end of the preceding and the start of the following token".into(),
                 "Pratt fold callback spans are checked by the C09 driver".into(),
             ],
-            require: vec![("node_extents_compared".into(), 100_000), ("empty_extents_compared".into(), 10_000), ("slices_compared_by_address".into(), 100_000), ("emission_spans_compared".into(), 1000), ("probe_spans_compared".into(), 1000)],
+            require: vec![("node_extents_compared".into(), 100_000), ("empty_extents_compared".into(), 10_000), ("slices_compared_by_address".into(), 100_000), ("emission_spans_compared".into(), 1000), ("probe_spans_compared".into(), 1000), ("miri_processes_clean".into(), 1)],
             min_evaluations: 10_000,
         },
     )
+}
+
+/// Slice for the sanitizer builds: random grammars with span + slice capture at every node on
+/// multi-byte text, on &str, &[char], mapped and stream inputs.
+pub fn san_job(size: usize, seed: u64, shard: usize) -> serde_json::Value {
+    let mut acc = Acc::default();
+    let sp = spec();
+    let b = basis(true);
+    let bi = basis(false);
+    for k in 0..size {
+        let mut rng = Rng::derive(seed, 0x5A07 + shard as u64, k as u64);
+        let sz = rng.range(2, 7);
+        let bufs: Vec<Buf> = (0..3).map(|_| Buf::new(&random_input(&mut rng, &SIGMA_PLUS, 7))).collect();
+        let g = b.random(&mut rng, sz);
+        on_kind::<&str>(&mut acc, &sp, &g, &bufs, 1, false);
+        match k % 4 {
+            0 => on_kind::<MappedK>(&mut acc, &sp, &g, &bufs, 1, false),
+            1 => on_kind::<StreamMapK>(&mut acc, &sp, &g, &bufs, 1, false),
+            2 => on_kind::<&[char]>(&mut acc, &sp, &g, &bufs, 1, false),
+            _ => {
+                let gi = bi.random(&mut rng, sz);
+                on_kind::<IterK>(&mut acc, &sp, &gi, &bufs, 1, false)
+            }
+        }
+    }
+    acc.to_json()
 }
